@@ -127,6 +127,33 @@ M("C18", "multi_returns_indices_on_dup", "ui/components/choice_question.py",
 M("C18", "empty_not_default", "ui/components/question.py",
   "        if len(ret) <= 0:\n            ret = self._default", "        if len(ret) < 0:\n            ret = self._default")
 
+# ---- C11 ------------------------------------------------------------------------------------
+M("C11", "exit_restores_zero", "api/io/indent.py",
+  "            output._indent = self._original_indents[i]", "            output._indent = 0")
+M("C11", "no_restore_on_exception", "api/io/indent.py",
+  "    def __exit__(self, exc_type, exc_val, exc_tb):\n", "    def __exit__(self, exc_type, exc_val, exc_tb):\n        if exc_type is not None:\n            return\n")
+M("C11", "io_indent_skips_error_output", "api/io/io.py",
+  "        return Indent([self._output, self._error_output], indent)", "        return Indent([self._output], indent)")
+M("C11", "converter_drops_dark", "adapter/style_converter.py",
+  "        if style.is_dark():\n            options.append(\"dark\")\n\n", "")
+M("C11", "converter_swaps_colors", "adapter/style_converter.py",
+  "PastelStyle(style.foreground_color, style.background_color, options)", "PastelStyle(style.background_color, style.foreground_color, options)")
+M("C11", "add_style_ignores_bg", "formatter/ansi_formatter.py",
+  "            style.tag,\n            pastel_style.foreground,\n            pastel_style.background,", "            style.tag,\n            pastel_style.foreground,\n            None,")
+M("C11", "plain_add_style_noop", "formatter/plain_formatter.py",
+  "        pastel_style = StyleConverter.convert(style)\n\n        self._formatter.add_style(\n            style.tag,", "        return\n        self._formatter.add_style(\n            style.tag,")
+M("C11", "write_line_raw_no_newline", "api/io/output.py",
+  'self._stream.write(to_str(string.rstrip("\\n") + "\\n"))', 'self._stream.write(to_str(string))')
+M("C11", "indent_after_format", "api/io/output.py",
+  '                    (" " * self._indent + s) if s else s for s in string.split("\\n")', '                    (" " * (self._indent + 1) + s) if s else s for s in string.split("\\n")')
+M("C11", "indent_blank_lines_too", "api/io/output.py",
+  '                    (" " * self._indent + s) if s else s for s in string.split("\\n")', '                    (" " * self._indent + s) for s in string.split("\\n")', expect="silent")
+M("C11", "single_call_style_dropped", "formatter/ansi_formatter.py",
+  "                return pastel_style.apply(string.replace(\"\\\\<\", \"<\"))", "                return string.replace(\"\\\\<\", \"<\")")
+M("C11", "increment_sets", "api/io/indent.py",
+  "                output._indent = output._indent + indent", "                output._indent = indent")
+M("C11", "section_ignores_indent", "api/io/output.py", "        section.indent(self._indent)\n", "", expect="silent")
+
 
 def run_one(m, runs):
     prop, name, path, old, new, expect = m
